@@ -420,6 +420,51 @@ Section WithHash.
     end.
 End WithHash.
 
+(* ---------- a challenge as a server writes it (RFC 7235 2.1 / RFC 7616 3.3) ---------- *)
+
+(* parameter value already unquoted: what the switch of parseChallenge stores *)
+Definition set_value : challenge -> bytes -> bytes -> challenge + derr := set_param_with (fun v => v).
+
+(* the meaning of a parameter list: the parameters applied in order, a repeated name overrides *)
+Fixpoint apply_fields (c : challenge) (fs : list (bytes * bytes)) : challenge + derr :=
+  match fs with
+  | [] => inl c
+  | (k, v) :: r => match set_value c k v with
+                   | inl c' => apply_fields c' r
+                   | inr e => inr e
+                   end
+  end.
+
+Definition fval_bytes (v : fval) : bytes := match v with Quoted x | QuotedRaw x | Bare x => x end.
+
+(* one list element: white space, name=value (quoted-string with quoted-pairs, or token), white space *)
+Definition padded := (bytes * field * bytes)%type.
+Definition render_piece (x : padded) : bytes := fst (fst x) ++ render_field (snd (fst x)) ++ snd x.
+Definition padded_sem (x : padded) : bytes * bytes := (fst (snd (fst x)), fval_bytes (snd (snd (fst x)))).
+
+(* a well-formed challenge parameter: token name; value a token, or any bytes as a quoted-string *)
+Definition cfield_ok (f : field) : bool :=
+  tokenb (fst f) &&
+  match snd f with
+  | Quoted _ => true
+  | QuotedRaw v => negb (mem_byte dquote v) && negb (mem_byte bslash v)
+  | Bare v => tokenb v
+  end.
+
+Definition piece_ok (x : padded) : bool :=
+  forallb is_space (fst (fst x)) && forallb is_space (snd x) && cfield_ok (snd (fst x)).
+
+(* [pre], [mid], [post]: white space before the scheme, between "Digest " and the first parameter,
+   and at the end of the field value *)
+Definition render_challenge (pre mid post : bytes) (xs : list padded) : bytes :=
+  pre ++ bs "Digest " ++ mid ++ join_with [comma] (map render_piece xs) ++ post.
+
+(* no white space before the first and after the last parameter (it belongs to mid / post) *)
+Definition is_nil (s : bytes) : bool := match s with [] => true | _ => false end.
+Definition ends_tightb (xs : list padded) : bool :=
+  match xs with [] => false | x :: _ => is_nil (fst (fst x)) end &&
+  match rev xs with [] => false | y :: _ => is_nil (snd y) end.
+
 (* the parameter names of a challenge, RFC 7616 section 3.3 *)
 Definition rfc_challenge_params : list bytes :=
   [bs "realm"; bs "domain"; bs "nonce"; bs "opaque"; bs "stale"; bs "algorithm"; bs "qop";
